@@ -54,7 +54,7 @@ func checkC11(c *C01Case) *Violation {
 			}
 			return viol("rejected", "a well-formed AutoVar program was rejected: %v\n--- source\n%s", res.Err, src)
 		}
-		v, _ := diffExec(c.File, c.Auto, res.Out, worlds, fmt.Sprintf("opt=%v", opt))
+		v, _ := diffExec(ExpandConsts(c.File), c.Auto, res.Out, worlds, fmt.Sprintf("opt=%v", opt))
 		if v != nil {
 			v.Clause = "autovar-behaviour"
 			v.Detail += "\n--- source\n" + src
@@ -118,6 +118,17 @@ func genC11(t *rapid.T) *C01Case {
 	fg := &fileGen{t: t, cfg: fcfg}
 	for _, sc := range c.File.Scripts() {
 		fg.decorate(sc.Body)
+	}
+	// constants named like the configured result vars: the implicit result var of an AutoVar
+	// command is not a written token, so it must not be substituted
+	if rapid.IntRange(0, 2).Draw(t, "decoyconst") == 0 {
+		seen := map[string]bool{}
+		for _, n := range sortedKeys(cfg.Auto) {
+			if v := cfg.Auto[n].VarName; v != "" && !seen[v] {
+				seen[v] = true
+				c.File.Tops = append([]*Top{{K: "const", Const: &Const{Name: v, Val: []string{"VAR_DECOY_" + fmt.Sprint(len(seen))}}}}, c.File.Tops...)
+			}
+		}
 	}
 	nw := pick(12, 32)
 	base := rapid.Uint64Range(1, 1<<40).Draw(t, "world")
